@@ -88,7 +88,7 @@ fn slot(i: usize, p: &str) -> Slot {
         _ => c(vec![assign(&t(0), r8("RDI"), e8("RDX"))], Call::Internal),
     }
 }
-const QUICK_SLOTS: [usize; 14] = [0, 1, 2, 5, 7, 8, 10, 11, 13, 16, 20, 22, 23, 24];
+const QUICK_SLOTS: [usize; 15] = [0, 1, 2, 5, 7, 8, 10, 11, 12, 13, 16, 20, 22, 23, 24];
 /// Alphabet of the 4-slot layer of the thorough tier.
 const THOROUGH_4SLOT: [usize; 18] = [0, 1, 2, 3, 5, 7, 8, 9, 10, 11, 13, 16, 19, 20, 22, 24, 26, 29];
 
